@@ -196,3 +196,55 @@ Proof.
   destruct (addr_eqb (n_value w) (canon sg)); cbn [andb negb]; [|reflexivity].
   destruct (height s <? n_locked w); reflexivity.
 Qed.
+
+(* ---------------- listing and delisting ---------------- *)
+Lemma gen_List_spec listed parse_ok name_found not_owner h locked expires :
+  gen_List listed parse_ok name_found not_owner h locked expires
+  = if negb listed && parse_ok && name_found && negb not_owner && negb (h <? locked) && negb (expires <? h)
+    then GVal ([Ev "set-listing" []], true) else GVal ([], false).
+Proof.
+  unfold gen_List. destruct listed, parse_ok, name_found, not_owner; try reflexivity; cbn [negb andb].
+  destruct (h <? locked); [reflexivity|]. destruct (expires <? h); reflexivity.
+Qed.
+
+Lemma gen_Delist_spec listed parse_ok name_found not_lister stale :
+  gen_Delist listed parse_ok name_found not_lister stale
+  = if listed && parse_ok && name_found && negb not_lister && negb stale
+    then GVal ([Ev "remove-listing" []], true) else GVal ([], false).
+Proof. unfold gen_Delist. destruct listed, parse_ok, name_found, not_lister, stale; reflexivity. Qed.
+
+Theorem do_list_is_the_interpretation s (sg : addr) n price :
+  let w := the_name s n in
+  do_list s sg n price
+  = if ok_of (gen_List (is_some (get_sale s (nm_full n))) (is_some (nm_key n)) (is_some w)
+                (match w with Some r => negb (addr_eqb (n_value r) sg) | None => false end) (height s)
+                (match w with Some r => n_locked r | None => 0 end) (match w with Some r => n_expires r | None => 0 end))
+    then Some (set_forsale s (aset N.eqb (forsale s) (nm_full n) {| f_price := price; f_owner := sg |}))
+    else None.
+Proof.
+  cbv zeta. rewrite gen_List_spec. unfold do_list, the_name, ok_of.
+  destruct (get_sale s (nm_full n)); cbn [is_some andb negb]; [reflexivity|].
+  destruct (nm_key n) as [k|]; cbn [is_some andb negb]; [|reflexivity].
+  destruct (get_name s k) as [w|]; cbn [is_some andb negb]; [|reflexivity].
+  destruct (addr_eqb (n_value w) sg); cbn [andb negb]; [|reflexivity].
+  rewrite !Z.gtb_ltb. destruct (height s <? n_locked w); cbn [andb negb]; [reflexivity|].
+  destruct (n_expires w <? height s); reflexivity.
+Qed.
+
+Theorem do_delist_is_the_interpretation s (sg : addr) n :
+  let sl := get_sale s (nm_full n) in
+  let w := the_name s n in
+  do_delist s sg n
+  = if ok_of (gen_Delist (is_some sl) (is_some (nm_key n)) (is_some w)
+                (match sl with Some x => negb (addr_eqb (f_owner x) sg) | None => false end)
+                (match w, sl with Some r, Some x => negb (addr_eqb (n_value r) (f_owner x)) | _, _ => false end))
+    then Some (set_forsale s (adel N.eqb (forsale s) (nm_full n)))
+    else None.
+Proof.
+  cbv zeta. rewrite gen_Delist_spec. unfold do_delist, the_name, ok_of.
+  destruct (get_sale s (nm_full n)) as [sl|]; cbn [is_some andb negb]; [|reflexivity].
+  destruct (nm_key n) as [k|]; cbn [is_some andb negb]; [|reflexivity].
+  destruct (get_name s k) as [w|]; cbn [is_some andb negb]; [|reflexivity].
+  destruct (addr_eqb (f_owner sl) sg); cbn [andb negb]; [|reflexivity].
+  destruct (addr_eqb (n_value w) (f_owner sl)); reflexivity.
+Qed.
